@@ -56,6 +56,7 @@ package tree
 //@   ensures [comment_fresh_storage] fresh_arr(result.comment)
 //@   ensures [no_neighbours] len(result.neigh) == 0 && len(result.br) == 0
 //@   loop 1
+//@     complete [all_iterations_no_early_exit]
 //@     assigns elems(out.comment)
 //@     invariant [out_unchanged] out.comment == lold(out.comment) && n.comment == lold(n.comment)
 //@     invariant [copied_prefix] forall k int :: 0 <= k && k < i ==> out.comment[k] == n.comment[k]
@@ -72,6 +73,7 @@ package tree
 //@   ensures [bitset_fresh] e.bitset != nil ==> fresh(copy.bitset)
 //@   ensures [ends_untouched] copy.left == old(copy.left) && copy.right == old(copy.right)
 //@   loop 1
+//@     complete [all_iterations_no_early_exit]
 //@     assigns elems(copy.comment)
 //@     invariant [copy_unchanged] copy.comment == lold(copy.comment) && e.comment == lold(e.comment)
 //@     invariant [copied_prefix] forall k int :: 0 <= k && k < i ==> copy.comment[k] == e.comment[k]
@@ -120,6 +122,7 @@ package tree
 //@   call (*tree.Edge).FindEdge [a_considered_branch_is_looked_up_in_the_other_list] a0 == e && a1 == edges2 && (tipEdges || len(e.right.neigh) != 1)
 //@   ensures [counts_are_non_negative_and_add_up_to_the_considered_branches] result2 == nil ==> result0 >= 0 && result1 >= 0 && result0 + result1 <= len(edges1)
 //@   loop 1
+//@     complete [all_iterations_no_early_exit]
 //@     invariant [common_never_exceeds_considered] 0 <= common && common <= tree1 && tree1 <= rangeindex + 1
 //@     step [a_considered_branch_counts_once_and_as_common_exactly_when_found] next(tree1) == tree1 + ((tipEdges || len(e.right.neigh) != 1) ? 1 : 0) && next(common) == common + (((tipEdges || len(e.right.neigh) != 1) && e2 != nil) ? 1 : 0)
 
@@ -145,6 +148,7 @@ package tree
 //@   ensures [only_tips_are_listed] forall k int :: {(*tips)[k]} old(len(*tips)) <= k && k < len(*tips) ==> (*tips)[k] != nil && allocated((*tips)[k]) && len((*tips)[k].neigh) == 1
 //@   call (*tree.Tree).tipsRecur [goes_to_every_neighbour_but_the_one_it_came_from] a1 == tips && a2 == n && n != prev && a3 == (cur == nil ? t.root : cur)
 //@   loop 1
+//@     complete [all_iterations_no_early_exit]
 //@     assigns cell(tips), elems("*Node")
 //@     invariant [only_the_list_s_own_storage_is_written] oldarrays_same("*Node", *tips)
 //@     invariant [list_private] (forall n *Node :: {n.neigh} allocated(n) ==> arr(n.neigh) != arr(*tips)) && (arr(*tips) == old(arr(*tips)) || fresh_arr(*tips))
@@ -173,6 +177,7 @@ package tree
 //@   call (*bytes.Buffer).WriteString@L1 [each_root_comment_between_its_own_brackets] a1 == "[" || a1 == "]" || a1 == c
 //@   call (*bytes.Buffer).WriteString@L0 [the_text_ends_with_a_semicolon] a1 == ";"
 //@   loop 1
+//@     complete [all_iterations_no_early_exit]
 //@     step [three_pieces_per_root_comment] ghost(ncalls_WriteString) == atHead(ghost(ncalls_WriteString)) + 3 && c == t.root.comment[rangeindex + 1]
 
 //@ func (*tree.Tree).Edges
@@ -185,6 +190,7 @@ package tree
 //@   ensures [every_root_branch_is_listed] forall i int :: {t.root.br[i]} 0 <= i && i < len(t.root.br) ==> (exists k int :: {result[k]} 0 <= k && k < len(result) && result[k] == t.root.br[i])
 //@   call (*tree.Tree).edgesRecur [the_walk_descends_through_every_root_branch] a1 == e
 //@   loop 1
+//@     complete [all_iterations_no_early_exit]
 //@     assigns cell(edges), elems("*Edge")
 //@     invariant [live_branches_so_far] forall k int :: {edges[k]} 0 <= k && k < len(edges) ==> edges[k] != nil && allocated(edges[k]) && edges[k].right != nil && edges[k].left != nil && allocated(edges[k].left) && allocated(edges[k].right)
 //@     invariant [root_branches_met_so_far_are_listed] forall i int :: {t.root.br[i]} 0 <= i && i <= rangeindex ==> (exists k int :: {edges[k]} 0 <= k && k < len(edges) && edges[k] == t.root.br[i])
@@ -226,6 +232,7 @@ package tree
 //@   ensures [accepted_only_with_equal_sizes_and_every_name_shared] result == nil ==> len(t.tipIndex) != 0 && len(t.tipIndex) == len(t2.tipIndex) && (forall s string :: {has(t.tipIndex, s)} has(t.tipIndex, s) ==> has(t2.tipIndex, s))
 //@   ensures [rejected_only_for_a_size_or_name_mismatch] result != nil ==> len(t.tipIndex) == 0 || len(t2.tipIndex) == 0 || len(t.tipIndex) != len(t2.tipIndex) || (exists s string :: has(t.tipIndex, s) && !has(t2.tipIndex, s))
 //@   loop 1
+//@     complete [all_iterations_no_early_exit]
 //@     invariant [every_name_seen_so_far_is_shared] forall s string :: {visited(1, s)} visited(1, s) ==> has(t2.tipIndex, s)
 
 // EdgeIndex.Value (properties C04, C08, C09): the split of the branch is looked up in this index's own table; found means
@@ -259,6 +266,7 @@ package tree
 //@   send stats [no_specific_branch_implies_identical] msg.Err == nil && !comparetreeidentical && msg.Tree1 == 0 && msg.Tree2 == 0 ==> msg.Sametree
 //@   send stats [counts_add_up] msg.Err == nil && !comparetreeidentical ==> msg.Tree1 + msg.Common == total && msg.Tree2 >= 0 && msg.Common >= 0
 //@   loop 1
+//@     complete [all_iterations_no_early_exit]
 //@     invariant [one_record_per_received_tree] ghost(ch_sent) == ghost(ch_recv) + lold(ghost(ch_sent)) - lold(ghost(ch_recv))
 //@     invariant [captured_unchanged] compTrees == lold(compTrees) && stats == lold(stats) && refTree == lold(refTree) && index == lold(index)
 //@     invariant [result_channel_open] !closed(stats)
@@ -303,11 +311,13 @@ package tree
 //@   send stats [identical_implies_no_specific_branch] msg.Err == nil && msg.Sametree ==> len(msg.Tree1) == 0 && len(msg.Tree2) == 0
 //@   send stats [the_lists_sent_are_not_reused_for_the_next_tree] (arr(msg.Tree1) == 0 || freshsince(1, msg.Tree1)) && (arr(msg.Tree2) == 0 || freshsince(1, msg.Tree2)) && (arr(msg.Common) == 0 || freshsince(1, msg.Common))
 //@   loop 1
+//@     complete [all_iterations_no_early_exit]
 //@     invariant [one_record_per_received_tree] ghost(ch_sent) == ghost(ch_recv) + lold(ghost(ch_sent)) - lold(ghost(ch_recv))
 //@     invariant [captured_unchanged] compTrees == lold(compTrees) && stats == lold(stats) && refTree == lold(refTree) && refIndex == lold(refIndex) && refEdges == lold(refEdges)
 //@     invariant [reference_branches_intact] forall k int :: 0 <= k && k < len(refEdges) ==> refEdges[k] != nil && refEdges[k].right != nil
 //@     invariant [result_channel_open] !closed(stats)
 //@   loop 2
+//@     complete [all_iterations_no_early_exit]
 //@     invariant [compared_branches_intact] forall k int :: 0 <= k && k < len(compEdges) ==> compEdges[k] != nil && compEdges[k].right != nil
 //@     invariant [reference_branches_intact] forall k int :: 0 <= k && k < len(refEdges) ==> refEdges[k] != nil && refEdges[k].right != nil
 //@   loop 3
@@ -364,6 +374,7 @@ package tree
 //@   call (*tree.Tree).NewNode [only_after_the_name_sets_were_found_disjoint] len(t.tipIndex) != 0 && len(t2.tipIndex) != 0 && (forall s string :: {has(t.tipIndex, s)} has(t.tipIndex, s) ==> !has(t2.tipIndex, s))
 //@   ensures [success_means_new_root_and_rebuilt_indexes] result == nil ==> fresh(t.root) && ghost(ncalls_ReinitIndexes) == old(ghost(ncalls_ReinitIndexes)) + 1 && ghost(ncalls_ConnectNodes) == old(ghost(ncalls_ConnectNodes)) + 2
 //@   loop 1
+//@     complete [all_iterations_no_early_exit]
 //@     invariant [no_shared_name_so_far] forall s string :: {visited(1, s)} visited(1, s) ==> !has(t2.tipIndex, s)
 //@     invariant [nothing_done_yet] t.root == old(t.root) && ghost(ncalls_ConnectNodes) == old(ghost(ncalls_ConnectNodes)) && ghost(ncalls_ReinitIndexes) == old(ghost(ncalls_ReinitIndexes)) && len(t.tipIndex) != 0 && len(t2.tipIndex) != 0
 
@@ -388,10 +399,12 @@ package tree
 //@   call (*sync.WaitGroup).Add [every_worker_is_announced_before_it_is_started] a1 == 1 && ghost(go_count) - old(ghost(go_count)) == cpu
 //@   ensures [one_worker_per_requested_thread_and_the_closer] result1 == nil && cpus >= 0 ==> ghost(go_count) == old(ghost(go_count)) + cpus + 1 && ghost(wg_add) == old(ghost(wg_add)) + cpus
 //@   loop 1
+//@     complete [all_iterations_no_early_exit]
 //@     invariant [the_index_and_the_list] index != nil && fresh(index) && refTree != nil && stats != nil && !closed(stats) && fresh(stats)
 //@     invariant [nothing_spawned_yet] ghost(go_count) == old(ghost(go_count)) && ghost(wg_add) == old(ghost(wg_add)) && ghost(ncalls_ReinitIndexes) == old(ghost(ncalls_ReinitIndexes)) + 1
 //@     step [a_reference_branch_counts_when_tips_count_or_it_is_an_inner_branch] total == atHead(total) + ((tips || len(edges[rangeindex + 1].right.neigh) != 1) ? 1 : 0)
 //@   loop 2
+//@     complete [all_iterations_no_early_exit]
 //@     invariant [workers_so_far_a] 0 <= cpu && (cpus >= 0 ==> cpu <= cpus)
 //@     invariant [workers_so_far_b] ghost(go_count) == old(ghost(go_count)) + cpu
 //@     invariant [workers_so_far_c] ghost(wg_add) == old(ghost(wg_add)) + cpu
@@ -413,9 +426,11 @@ package tree
 //@   call (*sync.WaitGroup).Add [every_worker_is_announced_before_it_is_started] a1 == 1 && ghost(go_count) - old(ghost(go_count)) == cpu
 //@   ensures [one_worker_per_requested_thread_and_the_closer] result1 == nil && cpus >= 0 ==> ghost(go_count) == old(ghost(go_count)) + cpus + 1 && ghost(wg_add) == old(ghost(wg_add)) + cpus
 //@   loop 1
+//@     complete [all_iterations_no_early_exit]
 //@     invariant [the_index_and_the_list] refIndex != nil && fresh(refIndex) && refTree != nil && stats != nil && !closed(stats) && fresh(stats)
 //@     invariant [nothing_spawned_yet] ghost(go_count) == old(ghost(go_count)) && ghost(wg_add) == old(ghost(wg_add)) && ghost(ncalls_ReinitIndexes) == old(ghost(ncalls_ReinitIndexes)) + 1
 //@   loop 2
+//@     complete [all_iterations_no_early_exit]
 //@     invariant [workers_so_far_a] 0 <= cpu && (cpus >= 0 ==> cpu <= cpus)
 //@     invariant [workers_so_far_b] ghost(go_count) == old(ghost(go_count)) + cpu
 //@     invariant [workers_so_far_c] ghost(wg_add) == old(ghost(wg_add)) + cpu
@@ -446,6 +461,7 @@ package tree
 //@   call (*tree.Edge).SetLength [only_tip_branches_are_zeroed_and_only_on_request] removeTips && a0 == e && len(e.right.neigh) == 1 && a1 == 0.0
 //@   call (*tree.Tree).unconnectNode [the_lower_end_of_the_contracted_branch_is_emptied] a1 == e.right
 //@   loop 1
+//@     complete [all_iterations_no_early_exit]
 //@     invariant [live] t != nil
 //@     invariant [i1] INV1()
 //@     invariant [i2] INV2()
@@ -454,6 +470,7 @@ package tree
 //@     invariant [list_private] forall n *Node :: {n.br} allocated(n) ==> arr(n.br) != arr(edges)
 //@     invariant [edges_kept] forall k int :: {edges[k]} 0 <= k && k < len(edges) ==> REOK(edges[k])
 //@   loop 2
+//@     complete [all_iterations_no_early_exit]
 //@     invariant [live] t != nil && REOK(e)
 //@     invariant [every_neighbour_in_the_ranged_list_is_a_live_node] forall k int :: {lold(e.right.neigh)[k]} 0 <= k && k < len(lold(e.right.neigh)) ==> lold(e.right.neigh)[k] != nil && allocated(lold(e.right.neigh)[k])
 //@     invariant [i1] INV1()
@@ -470,8 +487,10 @@ package tree
 //@   assigns n.neigh, n.br, elems(n.neigh), elems(n.br)
 //@   ensures [emptied] len(n.neigh) == 0 && len(n.br) == 0 && arr(n.neigh) == 0 && arr(n.br) == 0
 //@   loop 1
+//@     complete [all_iterations_no_early_exit]
 //@     assigns elems(n.neigh)
 //@   loop 2
+//@     complete [all_iterations_no_early_exit]
 //@     assigns elems(n.br)
 
 // Node.Newick (property C01): node comments come from the child's list and branch comments from the branch's
@@ -494,11 +513,14 @@ package tree
 //@   call (*bytes.Buffer).WriteString@L1! [a_comma_before_the_child_s_text_the_support_right_after_its_formatting_a_colon_then_the_length] a0 == newick && (ghost(ncalls_Newick) == atHead(ghost(ncalls_Newick)) ? a1 == "," : (ghost(ncalls_Sprintf) > atHead(ghost(ncalls_Sprintf)) && ghost(ncalls_FormatFloat) == atHead(ghost(ncalls_FormatFloat)) + 2 && nwsup(n.br[i], child) == 2 && ghost(ncalls_WriteString) - atHead(ghost(ncalls_WriteString)) == (nbchild > 0 ? 2 : 1)) || a1 == ((nwsup(n.br[i], child) > 0 && ghost(ncalls_FormatFloat) == atHead(ghost(ncalls_FormatFloat)) + 1 && ghost(ncalls_WriteString) - atHead(ghost(ncalls_WriteString)) == (nbchild > 0 ? 1 : 0)) ? fmtfloat(n.br[i].support) : (ghost(ncalls_FormatFloat) == atHead(ghost(ncalls_FormatFloat)) + nwsup(n.br[i], child) ? ":" : fmtfloat(n.br[i].length))))
 //@   call (*bytes.Buffer).WriteString@L0 [an_opening_parenthesis_first_for_an_inner_node_the_closing_one_after_all_children_the_node_s_own_name_last] a0 == newick && a1 == (ghost(ncalls_WriteString) == old(ghost(ncalls_WriteString)) ? (len(n.neigh) > 1 ? "(" : n.name) : ((len(n.neigh) > 1 && ghost(ncalls_WriteString) == atexit(1, ghost(ncalls_WriteString))) ? ")" : n.name))
 //@   loop 1
+//@     complete [all_iterations_no_early_exit]
 //@     invariant [the_opening_parenthesis_was_written_before_the_first_child] ghost(ncalls_WriteString) >= old(ghost(ncalls_WriteString)) + (len(n.neigh) > 1 ? 1 : 0)
 //@     step [support_only_for_an_unnamed_child_pvalue_only_with_support_length_when_present] child != parent ==> ghost(ncalls_FormatFloat) == atHead(ghost(ncalls_FormatFloat)) + ((n.br[i].support != -1.0 && child.name == "") ? (n.br[i].pvalue != -1.0 ? 2 : 1) : 0) + (n.br[i].length != -1.0 ? 1 : 0)
 //@   loop 2
+//@     complete [all_iterations_no_early_exit]
 //@     invariant [writes_only_add] ghost(ncalls_WriteString) >= lold(ghost(ncalls_WriteString))
 //@   loop 3
+//@     complete [all_iterations_no_early_exit]
 //@     invariant [writes_only_add] ghost(ncalls_WriteString) >= lold(ghost(ncalls_WriteString))
 
 // Hash sums of the two sides of every branch (property C04).  tax_hash is FNV-1a of the name: a function of the
@@ -519,6 +541,7 @@ package tree
 //@   store Edge.ntaxright [reset_then_one_for_a_tip_or_plus_the_count_of_a_child_branch] target == e && (newval == 0 || (len(cur.neigh) == 1 && newval == oldval + 1) || (len(cur.neigh) != 1 && newval == oldval + nextEdge.ntaxright))
 //@   call (*tree.Tree).computeEdgeHashesRightRecur [descends_to_every_other_neighbour_through_its_own_branch] a1 == n && a2 == cur && a3 == nextEdge && n != prev && nextEdge == cur.br[rangeindex + 1]
 //@   loop 1
+//@     complete [all_iterations_no_early_exit]
 //@     invariant [still_well_formed] INV12() && t != nil && cur != nil
 
 //@ func (*tree.Tree).computeEdgeHashesLeftRecur
@@ -528,6 +551,7 @@ package tree
 //@   store Edge.ntaxleft [reset_then_plus_the_far_side_count_of_every_other_branch_of_the_upper_end] target == e && (newval == 0 || (n == prevE.right && newval == oldval + prevE.ntaxright) || (n != prevE.right && n == prevE.left && newval == oldval + prevE.ntaxleft))
 //@   call (*tree.Tree).computeEdgeHashesLeftRecur [descends_to_every_other_neighbour_through_its_own_branch] a1 == n && a2 == cur && a3 == nextEdge && n != prev && nextEdge == cur.br[rangeindex + 1]
 //@   loop 1
+//@     complete [all_iterations_no_early_exit]
 //@     step [the_branch_itself_contributes_nothing] n == atHead(cur) ==> e.hashcodeleft == atHead(e.hashcodeleft) && e.ntaxleft == atHead(e.ntaxleft)
 
 // UpdateBitSet / fillRightBitSet (property C04): the bitset of a branch is cleared when the walk reaches it; at a tip
@@ -542,6 +566,7 @@ package tree
 //@   call (*tree.Tree).fillRightBitSet [descends_through_every_branch_leaving_the_lower_end_after_adding_it_to_the_path] a1 == e2 && e2.left == currentEdge.right && a2 == rightEdges && len(*rightEdges) >= 1 && (*rightEdges)[len(*rightEdges) - 1] == e2
 //@   ensures [the_path_is_restored] result == nil ==> len(*rightEdges) == old(len(*rightEdges))
 //@   loop 2
+//@     complete [all_iterations_no_early_exit]
 //@     invariant [path_length_restored_after_each_child] len(*rightEdges) == old(len(*rightEdges)) && rightEdges != nil && t != nil && currentEdge != nil && currentEdge.right != nil
 
 //@ func (*tree.Tree).UpdateBitSet
@@ -559,6 +584,7 @@ package tree
 //@   call (*tree.Tree).clearBitSetsRecur [the_branch_has_just_been_given_a_bitset_of_its_own] freshiter(n.br[i].bitset)
 //@   call (*tree.Tree).clearBitSetsRecur [the_branch_hash_sums_are_zeroed] n.br[i].hashcodeleft == 0 && n.br[i].hashcoderight == 0
 //@   loop 1
+//@     complete [all_iterations_no_early_exit]
 //@     invariant [still_well_formed] t != nil && n != nil && INV12()
 
 //@ func (*tree.Tree).ClearBitSets
@@ -576,6 +602,7 @@ package tree
 //@   ensures [unique] result1 == nil ==> (forall k int :: {n.br[k]} 0 <= k && k < len(n.br) && n.br[k].right == n ==> n.br[k] == result0)
 //@   ensures [error_without_a_value] result1 != nil ==> result0 == nil
 //@   loop 1
+//@     complete [all_iterations_no_early_exit]
 //@     invariant [found_so_far] (e2 == nil && (forall k int :: {n.br[k]} 0 <= k && k <= rangeindex ==> n.br[k].right != n)) || (e2 != nil && e2.right == n && (exists k int :: 0 <= k && k <= rangeindex && n.br[k] == e2) && (forall k int :: {n.br[k]} 0 <= k && k <= rangeindex && n.br[k].right == n ==> n.br[k] == e2))
 
 // Parent: the upper end of the unique branch that points into n
@@ -586,6 +613,7 @@ package tree
 //@   ensures [upper_end_of_the_incoming_branch] result1 == nil ==> (exists k int :: 0 <= k && k < len(n.br) && n.br[k].right == n && n.br[k].left == result0) && (forall k int :: {n.br[k]} 0 <= k && k < len(n.br) && n.br[k].right == n ==> n.br[k].left == result0)
 //@   ensures [error_without_a_value] result1 != nil ==> result0 == nil
 //@   loop 1
+//@     complete [all_iterations_no_early_exit]
 //@     invariant [found_so_far] (n2 == nil && (forall k int :: {n.br[k]} 0 <= k && k <= rangeindex ==> n.br[k].right != n)) || (n2 != nil && (exists k int :: 0 <= k && k <= rangeindex && n.br[k].right == n && n.br[k].left == n2) && (forall k int :: {n.br[k]} 0 <= k && k <= rangeindex && n.br[k].right == n ==> n.br[k].left == n2))
 
 // the name cache used by the editing functions (interface NodeIndex; thin)
@@ -604,10 +632,13 @@ package tree
 //@   call iface:tree.NodeIndex.AddNode [every_inserted_tip_is_registered_before_the_next_insertion] a1 == newtip && ghost(ncalls_AddNode) == ghost(ncalls_InsertIdenticalTip) - 1 + old(ghost(ncalls_AddNode)) - old(ghost(ncalls_InsertIdenticalTip))
 //@   ensures [indexes_rebuilt_on_success] result == nil ==> ghost(ncalls_ReinitIndexes) == old(ghost(ncalls_ReinitIndexes)) + 1 && ghost(ncalls_AddNode) - old(ghost(ncalls_AddNode)) == ghost(ncalls_InsertIdenticalTip) - old(ghost(ncalls_InsertIdenticalTip))
 //@   loop 1
+//@     complete [all_iterations_no_early_exit]
 //@     invariant [every_insertion_so_far_was_registered_and_indexes_not_rebuilt_yet] ghost(ncalls_AddNode) - old(ghost(ncalls_AddNode)) == ghost(ncalls_InsertIdenticalTip) - old(ghost(ncalls_InsertIdenticalTip)) && ghost(ncalls_ReinitIndexes) == old(ghost(ncalls_ReinitIndexes))
 //@   loop 2
+//@     complete [all_iterations_no_early_exit]
 //@     invariant [every_insertion_so_far_was_registered_and_indexes_not_rebuilt_yet] ghost(ncalls_AddNode) - old(ghost(ncalls_AddNode)) == ghost(ncalls_InsertIdenticalTip) - old(ghost(ncalls_InsertIdenticalTip)) && ghost(ncalls_ReinitIndexes) == old(ghost(ncalls_ReinitIndexes))
 //@   loop 3
+//@     complete [all_iterations_no_early_exit]
 //@     invariant [every_insertion_so_far_was_registered_and_indexes_not_rebuilt_yet] ghost(ncalls_AddNode) - old(ghost(ncalls_AddNode)) == ghost(ncalls_InsertIdenticalTip) - old(ghost(ncalls_InsertIdenticalTip)) && ghost(ncalls_ReinitIndexes) == old(ghost(ncalls_ReinitIndexes))
 
 // InsertIdenticalTip (property C15): the new tip is named as asked and registered in the name index; when the tip's
@@ -652,8 +683,10 @@ package tree
 //@   store Edge.left [another_branch_is_only_ever_re_attached_from_the_single_node_to_its_parent] target != e ==> newval == previous && oldval == current
 //@   store Edge.right [only_the_removed_branch_loses_its_lower_end] target == e && newval == nil
 //@   loop 1
+//@     complete [all_iterations_no_early_exit]
 //@     invariant [snapshot_is_the_adjacency_at_entry] len(tmpnodes) == old(len(current.neigh)) && len(tmpedges) == old(len(current.br)) && (forall k int :: {tmpnodes[k]} {tmpedges[k]} 0 <= k && k < len(tmpnodes) ==> tmpnodes[k] == old(current.neigh[k]) && tmpedges[k] == old(current.br[k]))
 //@   loop 2
+//@     complete [all_iterations_no_early_exit]
 //@     invariant [the_removed_branch_stays_detached] e.left == nil && e.right == nil && current != nil
 
 // resolveRecur (property C07): a node is left with at most three neighbours; a detached neighbour is re-attached
@@ -684,6 +717,7 @@ package tree
 //@   call (*tree.Tree).RemoveEdges [tips_never_requested_for_removal] a2 == false
 //@   call (*tree.Tree).RemoveEdges [root_option_is_passed_on] a1 == removeRoot
 //@   loop 1
+//@     complete [all_iterations_no_early_exit]
 //@     invariant [separate_storage] arr(lowsupportbranches) != arr(edges)
 //@     invariant [tree_untouched] t != nil && INV1() && INV2() && OWN() && LIVEBR()
 //@     invariant [selection_in_its_own_storage] fresh_arr(lowsupportbranches)
@@ -698,6 +732,7 @@ package tree
 //@   call (*tree.Tree).RemoveEdges [every_such_branch_is_selected] forall j int :: 0 <= j && j < len(edges) && shortbranch(edges[j], length) ==> (exists k int :: 0 <= k && k < len(a3) && a3[k] == edges[j])
 //@   call (*tree.Tree).RemoveEdges [root_and_tip_options_are_passed_on_in_that_order] a1 == removeRoot && a2 == removeTips
 //@   loop 1
+//@     complete [all_iterations_no_early_exit]
 //@     invariant [separate_storage] arr(shortbranches) != arr(edges)
 //@     invariant [tree_untouched] t != nil && INV1() && INV2() && OWN() && LIVEBR()
 //@     invariant [selection_in_its_own_storage] fresh_arr(shortbranches)
@@ -712,6 +747,7 @@ package tree
 //@   call (*tree.Tree).RemoveEdges [every_such_branch_is_selected] forall j int :: 0 <= j && j < len(edges) && indepth(edges[j], mindepthThreshold, maxdepthThreshold) ==> (exists k int :: 0 <= k && k < len(a3) && a3[k] == edges[j])
 //@   call (*tree.Tree).RemoveEdges [root_and_tip_options_are_passed_on_in_that_order] a1 == removeRoot && a2 == removeTips
 //@   loop 1
+//@     complete [all_iterations_no_early_exit]
 //@     invariant [separate_storage] arr(depthbranches) != arr(edges)
 //@     invariant [tree_untouched] t != nil && INV1() && INV2() && OWN() && LIVEBR()
 //@     invariant [selection_in_its_own_storage] fresh_arr(depthbranches)
@@ -740,6 +776,7 @@ package tree
 //@   call tree.pathLengths [recursion_goes_to_the_child_away_from_prev] a0 == child && a1 == cur && a0 != prev && a2 == lengths && a4 == metric
 //@   call tree.pathLengths [accumulates_the_metric_weight_of_the_branch] a3 == curlength + metricweight(e, metric)
 //@   loop 1
+//@     complete [all_iterations_no_early_exit]
 //@     assigns elems(lengths)
 //@     invariant [inv_kept] INV12()
 //@     invariant [ids_kept] forall n *Node :: {n.id} allocated(n) && len(n.neigh) == 1 ==> 0 <= n.id && n.id < len(lengths)
@@ -753,6 +790,7 @@ package tree
 //@   call sort.Strings [the_collected_names_are_sorted_before_use] a0 == names
 //@   return [the_tips_come_in_the_order_of_the_sorted_name_list] len(result0) == len(names) && (forall k int :: {result0[k]} 0 <= k && k < len(result0) ==> result0[k] == (has(tb.tips, names[k]) ? tb.tips[names[k]] : nil))
 //@   loop 2
+//@     complete [all_iterations_no_early_exit]
 //@     invariant [tips_so_far_follow_the_sorted_names] len(v) == rangeindex + 1 && (forall k int :: {v[k]} 0 <= k && k < len(v) ==> v[k] == (has(tb.tips, names[k]) ? tb.tips[names[k]] : nil))
 
 //@ func (*tree.TipBag).AddTip
@@ -770,6 +808,7 @@ package tree
 //@   call (*tree.Tree).cutEdgesMaxLengthRecur [moves_to_the_neighbour_away_from_prev] a2 == n && a3 == cur && a2 != prev && a1 == tipBag && a4 == maxlen && a5 == visited
 //@   call (*tree.TipBag).AddTip [collects_the_tip_reached] a1 == cur && len(cur.neigh) == 1 && a0 == tipBag
 //@   loop 1
+//@     complete [all_iterations_no_early_exit]
 //@     assigns elems(visited), mapof("map[string]*Node")
 //@     invariant [inv_kept] INV12()
 //@     invariant [ids_kept] forall e *Edge :: {e.id} allocated(e) ==> 0 <= e.id && e.id < len(visited)
@@ -782,8 +821,10 @@ package tree
 //@   call (*tree.TipBag).AddTip [tip_of_a_cut_tip_branch_gets_its_own_bag] !(e.length < maxlen) && len(a1.neigh) == 1 && (a1 == e.left || a1 == e.right)
 //@   call (*tree.Edge).SetId [every_branch_is_numbered_by_its_position_in_the_list_before_the_flood] a0 == e && a1 == rangeindex + 1 && e == edges[rangeindex + 1] && len(visited) == len(edges)
 //@   loop 1
+//@     complete [all_iterations_no_early_exit]
 //@     step [a_branch_is_unvisited_once_numbered] visited[rangeindex + 1] == false
 //@   loop 2
+//@     complete [all_iterations_no_early_exit]
 //@     step [a_flooded_component_becomes_a_group_only_when_it_holds_a_tip] e.length < maxlen ==> len(next(bags)) == len(bags) + (len(tipBag.tips) > 0 ? 1 : 0)
 
 // the order used to sort the tips of the matrix: by the names of the tips being sorted
@@ -798,10 +839,12 @@ package tree
 //@   ensures [square_matrix_indexed_like_the_tip_list] len(result0) == len(result1) && (forall i int :: {result0[i]} 0 <= i && i < len(result0) ==> len(result0[i]) == len(result1))
 //@   ensures [tip_i_has_identifier_i] forall i int :: {result1[i]} 0 <= i && i < len(result1) ==> result1[i] != nil && result1[i].id == i
 //@   loop 1
+//@     complete [all_iterations_no_early_exit]
 //@     invariant [tips] forall k int :: {tips[k]} 0 <= k && k < len(tips) ==> tips[k] != nil
 //@     invariant [rows_so_far] len(matrix) == len(tips) && (forall i int :: {matrix[i]} 0 <= i && i <= rangeindex ==> len(matrix[i]) == len(tips))
 //@     invariant [ids_so_far] forall i int :: {tips[i]} 0 <= i && i <= rangeindex ==> tips[i].id == i
 //@   loop 2
+//@     complete [all_iterations_no_early_exit]
 //@     invariant [tips] forall k int :: {tips[k]} 0 <= k && k < len(tips) ==> tips[k] != nil
 //@     invariant [rows] len(matrix) == len(tips) && (forall i int :: {matrix[i]} 0 <= i && i < len(tips) ==> len(matrix[i]) == len(tips))
 //@     invariant [ids] forall i int :: {tips[i]} 0 <= i && i < len(tips) ==> tips[i].id == i
@@ -815,8 +858,10 @@ package tree
 //@   recv treechan [message_carries_a_tree] msg.Tree != nil
 //@   call (*tree.Tree).ToDistanceMatrix [every_tree_is_measured_with_the_requested_metric] a1 == old(metric) && a0 == t.Tree
 //@   loop 4
+//@     complete [all_iterations_no_early_exit]
 //@     step [entry_accumulates_the_same_entry_of_the_next_matrix] matrix[i][j] == atHead(matrix[i][j]) + atHead(matrix2[i][j])
 //@   loop 6
+//@     complete [all_iterations_no_early_exit]
 //@     step [entry_divided_by_the_number_of_trees] matrix[i][j] == atHead(matrix[i][j]) / real(ntrees)
 
 // ---------------------------------------------------------------------------
@@ -858,6 +903,7 @@ package tree
 //@   ensures [name_index_rebuilt_from_the_current_tips] result == nil ==> ghost(tipindex_stale) == 0
 //@   return [every_sorted_tip_is_registered_under_its_name_with_its_rank] result0 == nil ==> (forall k int :: {tips[k]} 0 <= k && k < len(tips) ==> has(t.tipIndex, tips[k].name) && t.tipIndex[tips[k].name] == tips[k] && tips[k].tipid == k)
 //@   loop 2
+//@     complete [all_iterations_no_early_exit]
 //@     invariant [registered_so_far] t.tipIndex != nil && (forall k int :: {tips[k]} 0 <= k && k <= rangeindex ==> has(t.tipIndex, tips[k].name) && t.tipIndex[tips[k].name] == tips[k] && tips[k].tipid == k)
 //@     invariant [tips_live] forall k int :: {tips[k]} 0 <= k && k < len(tips) ==> tips[k] != nil && allocated(tips[k])
 
@@ -865,6 +911,7 @@ package tree
 //@   flag noframe
 //@   requires t != nil && t.tipIndex != nil
 //@   loop 1
+//@     complete [all_iterations_no_early_exit]
 //@     assigns Node.name
 //@     invariant [index_still_maps_original_names] nodeindex != nil && nodeindex.index != nil && (forall s string :: {has(nodeindex.index, s)} has(nodeindex.index, s) ==> nodeindex.index[s] != nil)
 //@     invariant [renamed_exactly_the_keys_already_delivered_whatever_the_order] forall s string :: {nodeindex.index[s]} has(nodeindex.index, s) ==> nodeindex.index[s].name == (visited(1, s) ? namemap[s] : s)
@@ -926,6 +973,7 @@ package tree
 //@   ensures [found_first_occurrence] result1 == nil ==> 0 <= result0 && result0 < deg(n) && n.neigh[result0] == next && (forall k int :: {n.neigh[k]} 0 <= k && k < result0 ==> n.neigh[k] != next)
 //@   ensures [error_iff_absent] result1 != nil ==> result0 == -1 && (forall k int :: {n.neigh[k]} 0 <= k && k < deg(n) ==> n.neigh[k] != next)
 //@   loop 1
+//@     complete [all_iterations_no_early_exit]
 //@     invariant [scanned_prefix_has_no_match] 0 <= i && (forall k int :: {n.neigh[k]} 0 <= k && k < i ==> n.neigh[k] != next)
 
 //@ func (*tree.Node).EdgeIndex
@@ -935,6 +983,7 @@ package tree
 //@   ensures [found_first_occurrence] result1 == nil ==> 0 <= result0 && result0 < len(n.br) && n.br[result0] == e && (forall k int :: {n.br[k]} 0 <= k && k < result0 ==> n.br[k] != e)
 //@   ensures [error_iff_absent] result1 != nil ==> result0 == -1 && (forall k int :: {n.br[k]} 0 <= k && k < len(n.br) ==> n.br[k] != e)
 //@   loop 1
+//@     complete [all_iterations_no_early_exit]
 //@     invariant [scanned_prefix_has_no_match] 0 <= i && (forall k int :: {n.br[k]} 0 <= k && k < i ==> n.br[k] != e)
 
 // removes slot i (the first slot holding n2) from both parallel arrays, keeping the order of the others;
@@ -996,6 +1045,7 @@ package tree
 //@   assigns nothing
 //@   ensures [true_iff_listed_as_neighbour] result <==> (exists k int :: {n.neigh[k]} 0 <= k && k < deg(n) && n.neigh[k] == next)
 //@   loop 1
+//@     complete [all_iterations_no_early_exit]
 //@     invariant [scanned_prefix_has_no_match] 0 <= i && (forall k int :: {n.neigh[k]} 0 <= k && k < i ==> n.neigh[k] != next)
 
 // shape after Apply: n1 is linked to X in place of n1_2, n2 to n1_2 in place of X, central branch n1->n2 or n2->n1
@@ -1037,6 +1087,7 @@ package tree
 //@   call tree.newNNI [only_on_branches_whose_two_ends_have_three_neighbours] deg(a1) == 3 && deg(a2) == 3 && a1 == e.left && a2 == e.right && a0 == t
 //@   call tree.newNNI [the_plain_exchange_first_then_the_crossed_one] a3 == (ghost(ncalls_newNNI) - atHead(ghost(ncalls_newNNI)) == 1)
 //@   loop 1
+//@     complete [all_iterations_no_early_exit]
 //@     step [two_moves_per_eligible_branch_none_otherwise_unless_stopped] (deg(e.left) == 3 && deg(e.right) == 3 ? ghost(fncalls_f) >= atHead(ghost(fncalls_f)) + 1 && ghost(fncalls_f) <= atHead(ghost(fncalls_f)) + 2 : ghost(fncalls_f) == atHead(ghost(fncalls_f)))
 //@     step [every_proposal_is_an_object_of_its_own_one_plain_one_crossed] ghost(ncalls_newNNI) - atHead(ghost(ncalls_newNNI)) == ghost(fncalls_f) - atHead(ghost(fncalls_f))
 
@@ -1095,6 +1146,7 @@ package tree
 //@   call (*tree.Tree).GraftTipOnEdge [new_tip_grafted_on_the_drawn_branch] a2 == edges[i_edge] && a1 == n
 //@   call (*tree.Node).SetName [the_new_tip_is_named_after_its_number_the_first_pair_after_the_previous_number] (a0 == n && a1 == "Tip" + itoa(i)) || (a0 != n && (a1 == "" || a1 == "Tip" + itoa(i - 1)))
 //@   loop 1
+//@     complete [all_iterations_no_early_exit]
 //@     invariant [tree_object] t != nil
 //@     step [first_round_rooted_second_root_branch_gets_a_non_negative_length] len(edges) == 0 && rooted ==> next(edges)[1] != nil && next(edges)[1].length >= 0.0
 //@     step [first_round_unrooted_first_branch_gets_a_non_negative_length] len(edges) == 0 && !rooted ==> next(edges)[0] != nil && next(edges)[0].length >= 0.0
@@ -1117,6 +1169,7 @@ package tree
 //@   call (*tree.Tree).GraftTipOnEdge [new_tip_grafted_on_the_branch_of_the_drawn_tip] a2 == tips[i_tip].br[0] && a1 == n
 //@   call (*tree.Node).SetName [the_new_tip_is_named_after_its_number_the_first_pair_after_the_previous_number] (a0 == n && a1 == "Tip" + itoa(i)) || (a0 != n && (a1 == "" || a1 == "Tip" + itoa(i - 1)))
 //@   loop 1
+//@     complete [all_iterations_no_early_exit]
 //@     invariant [tree_object] t != nil
 //@     invariant [a_tip_exists_as_soon_as_a_branch_does] len(edges) >= 1 ==> len(tips) >= 1
 //@     step [every_created_tip_becomes_a_candidate] len(next(tips)) == len(tips) + (len(edges) == 0 ? 2 : 1) && next(tips)[len(next(tips)) - 1] == n
@@ -1134,6 +1187,7 @@ package tree
 //@   call (*tree.Tree).GraftTipOnEdge [the_new_tip_is_grafted_on_the_branch_of_the_previous_one] a1 == n && a2 == lasttip.br[0] && i >= 2
 //@   call (*tree.Node).SetName [the_new_tip_is_named_after_its_number_the_first_pair_after_the_previous_number] (a0 == n && a1 == "Tip" + itoa(i)) || (a0 != n && (a1 == "" || a1 == "Tip" + itoa(i - 1)))
 //@   loop 1
+//@     complete [all_iterations_no_early_exit]
 //@     invariant [tree_object] t != nil
 //@     step [the_tip_just_added_is_the_next_grafting_point] next(lasttip) == n && next(i) == i + 1
 
@@ -1168,6 +1222,7 @@ package tree
 //@   call tree.allTopologies_recur [one_more_tip_is_placed_per_level] a0 == t && a1 == nbTips && a2 == total + 1 && a3 == trees && a4 == tipNames
 //@   call (*tree.Tree).GraftTipOnEdge [the_new_tip_is_tried_on_every_branch_in_turn] a1 == n && a2 == e
 //@   loop 1
+//@     complete [all_iterations_no_early_exit]
 //@     step [the_branch_gets_its_ends_back_and_the_grafted_pieces_are_detached] e.left == left && e.right == right && e1.left == nil && e1.right == nil && e2.left == nil && e2.right == nil && len(n.neigh) == 0 && len(n1.neigh) == 0 && len(n.br) == 0 && len(n1.br) == 0
 
 //@ func tree.AllTopologies
@@ -1207,8 +1262,10 @@ package tree
 //@   ensures [other_nodes_keep_their_adjacency_arrays] forall m *Node :: {m.neigh} {m.br} m != n ==> m.neigh == old(m.neigh) && m.br == old(m.br)
 //@   ensures [only_its_own_branches_lose_their_ends] forall x *Edge :: {x.left} {x.right} (forall k int :: {old(n.br[k])} 0 <= k && k < old(len(n.br)) ==> old(n.br[k]) != x) ==> x.left == old(x.left) && x.right == old(x.right)
 //@   loop 1
+//@     complete [all_iterations_no_early_exit]
 //@     assigns elems(n.neigh)
 //@   loop 2
+//@     complete [all_iterations_no_early_exit]
 //@     assigns elems(n.br), Edge.left, Edge.right, Edge.bitset
 //@     invariant [branches_still_listed_ahead] n.br == lold(n.br) && (forall k int :: {n.br[k]} rangeindex < k && k < len(n.br) ==> n.br[k] == old(n.br[k]))
 //@     invariant [others_keep_their_ends] forall x *Edge :: {x.left} {x.right} (forall k int :: {old(n.br[k])} 0 <= k && k < old(len(n.br)) ==> old(n.br[k]) != x) ==> x.left == old(x.left) && x.right == old(x.right)
@@ -1258,6 +1315,7 @@ package tree
 //@   call (*tree.Tree).ReinitInternalIndexes [name_index_is_rebuilt_before_branch_indexes] ghost(tipindex_stale) == 0
 //@   ensures [look_ups_by_name_reflect_the_pruned_tip_set] result == nil ==> ghost(tipindex_stale) == 0
 //@   loop 1
+//@     complete [all_iterations_no_early_exit]
 //@     invariant [names_collected] namemap != nil && (forall k int :: {names[k]} 0 <= k && k <= rangeindex ==> has(namemap, names[k]))
 
 // ---------------------------------------------------------------------------
@@ -1271,6 +1329,7 @@ package tree
 //@   ensures [the_listed_prefix_is_kept] len(*edges) >= old(len(*edges)) && (forall k int :: {(*edges)[k]} {old((*edges)[k])} 0 <= k && k < old(len(*edges)) ==> (*edges)[k] == old((*edges)[k]))
 //@   ensures [every_appended_branch_is_internal] forall k int :: {(*edges)[k]} old(len(*edges)) <= k && k < len(*edges) ==> (*edges)[k] != nil && (*edges)[k].right != nil && len((*edges)[k].right.neigh) != 1
 //@   loop 1
+//@     complete [all_iterations_no_early_exit]
 //@     invariant [the_listed_prefix_is_kept] len(*edges) >= old(len(*edges)) && (forall k int :: {(*edges)[k]} 0 <= k && k < old(len(*edges)) ==> (*edges)[k] == old((*edges)[k]))
 //@     invariant [every_appended_branch_is_internal] forall k int :: {(*edges)[k]} old(len(*edges)) <= k && k < len(*edges) ==> (*edges)[k] != nil && (*edges)[k].right != nil && len((*edges)[k].right.neigh) != 1
 
@@ -1279,6 +1338,7 @@ package tree
 //@   requires t != nil
 //@   ensures [only_internal_branches] forall k int :: {result[k]} 0 <= k && k < len(result) ==> result[k] != nil && result[k].right != nil && len(result[k].right.neigh) != 1
 //@   loop 1
+//@     complete [all_iterations_no_early_exit]
 //@     invariant [only_internal_branches_so_far] forall k int :: {edges[k]} 0 <= k && k < len(edges) ==> edges[k] != nil && edges[k].right != nil && len(edges[k].right.neigh) != 1
 
 // TipEdges / tipEdgesRecur (properties C03, C04): only branches whose lower end is a tip are listed, earlier entries are kept
@@ -1293,6 +1353,7 @@ package tree
 //@   ensures [every_tip_branch_leaving_an_inner_lower_end_is_listed] len(edge.right.neigh) > 1 ==> (forall i int :: {edge.right.br[i]} 0 <= i && i < len(edge.right.br) && edge.right.br[i].left == edge.right && edge.right.br[i].right != nil && len(edge.right.br[i].right.neigh) == 1 ==> (exists k int :: {(*edges)[k]} old(len(*edges)) <= k && k < len(*edges) && (*edges)[k] == edge.right.br[i]))
 //@   call (*tree.Tree).tipEdgesRecur [descends_through_every_branch_leaving_the_lower_end] a1 == child && child.left == edge.right && a2 == edges
 //@   loop 1
+//@     complete [all_iterations_no_early_exit]
 //@     assigns cell(edges), elems("*Edge")
 //@     invariant [only_the_list_s_own_storage_is_written] oldarrays_same("*Edge", *edges)
 //@     invariant [list_private] (forall n *Node :: {n.br} allocated(n) ==> arr(n.br) != arr(*edges)) && (arr(*edges) == old(arr(*edges)) || fresh_arr(*edges))
@@ -1310,6 +1371,7 @@ package tree
 //@   ensures [fresh_storage] arr(result) == 0 || fresh_arr(result)
 //@   call (*tree.Tree).tipEdgesRecur [the_walk_descends_through_every_root_branch] a1 == e
 //@   loop 1
+//@     complete [all_iterations_no_early_exit]
 //@     assigns cell(edges), elems("*Edge")
 //@     invariant [only_tip_branches_so_far] forall k int :: {edges[k]} 0 <= k && k < len(edges) ==> edges[k] != nil && edges[k].right != nil && len(edges[k].right.neigh) == 1
 //@     invariant [root_tip_branches_met_so_far_are_listed] forall i int :: {t.root.br[i]} 0 <= i && i <= rangeindex && len(t.root.br[i].right.neigh) == 1 ==> (exists k int :: {edges[k]} 0 <= k && k < len(edges) && edges[k] == t.root.br[i])
@@ -1335,6 +1397,7 @@ package tree
 //@   call (*tree.Edge).SetLength [every_branch_has_length_one] a1 == 1.0 && freshiter(a0)
 //@   call (*tree.Tree).ReinitIndexes [the_star_is_indexed] a0 == t
 //@   loop 1
+//@     complete [all_iterations_no_early_exit]
 //@     invariant [tips_so_far] 0 <= i && i <= nbtips && t != nil && n != nil && ghost(ncalls_NewNode) == old(ghost(ncalls_NewNode)) + 1 + i && ghost(ncalls_ConnectNodes) == old(ghost(ncalls_ConnectNodes)) + i && ghost(ncalls_ReinitIndexes) == old(ghost(ncalls_ReinitIndexes))
 //@     step [one_tip_per_iteration] next(i) == i + 1 && ghost(ncalls_SetLength) == atHead(ghost(ncalls_SetLength)) + 1 && ghost(ncalls_SetName) == atHead(ghost(ncalls_SetName)) + 1
 
@@ -1349,6 +1412,7 @@ package tree
 //@   ensures [every_branch_leaving_an_inner_lower_end_is_listed] len(edge.right.neigh) > 1 ==> (forall i int :: {edge.right.br[i]} 0 <= i && i < len(edge.right.br) && edge.right.br[i].left == edge.right ==> (exists k int :: {(*edges)[k]} old(len(*edges)) <= k && k < len(*edges) && (*edges)[k] == edge.right.br[i]))
 //@   call (*tree.Tree).edgesRecur [descends_through_every_branch_leaving_the_lower_end] a1 == child && child.left == edge.right && a2 == edges
 //@   loop 1
+//@     complete [all_iterations_no_early_exit]
 //@     assigns cell(edges), elems("*Edge")
 //@     invariant [only_the_list_s_own_storage_is_written] oldarrays_same("*Edge", *edges)
 //@     invariant [list_private] (forall n *Node :: {n.br} allocated(n) ==> arr(n.br) != arr(*edges)) && (arr(*edges) == old(arr(*edges)) || fresh_arr(*edges))
@@ -1388,6 +1452,7 @@ package tree
 //@   requires t != nil && current != nil
 //@   ensures [counts_are_non_negative_without_error] result5 == nil ==> result2 >= 0 && result3 >= 0
 //@   loop 1
+//@     complete [all_iterations_no_early_exit]
 //@     invariant [counts_are_non_negative] common >= 0 && different >= 0 && tmpdiff >= 0
 //@     step [wanted_and_foreign_tips_of_each_child_are_added_exactly_once] n != prev ==> next(common) == common + com && next(different) + next(tmpdiff) == different + tmpdiff + diff
 //@     step [the_side_we_came_from_adds_nothing] n == prev ==> next(common) == common && next(different) == different && next(tmpdiff) == tmpdiff
@@ -1412,6 +1477,7 @@ package tree
 //@   ensures [every_branch_keeps_its_two_ends] forall e *Edge :: {e.left} {e.right} sameends(e)
 //@   ensures [adjacency_arrays_of_nodes_untouched] forall m *Node :: {m.br} allocated(m) ==> m.br == old(m.br) && m.neigh == old(m.neigh)
 //@   loop 1
+//@     complete [all_iterations_no_early_exit]
 //@     assigns Edge.left, Edge.right, cell(reversed), elems("*Edge")
 //@     invariant [every_branch_keeps_its_two_ends] forall e *Edge :: {e.left} {e.right} sameends(e)
 //@     invariant [listed_branches_keep_two_live_ends] LIVEBR() && (forall m *Node :: {m.br} allocated(m) ==> m.br == old(m.br))
@@ -1450,6 +1516,7 @@ package tree
 //@   call math/rand.Intn [fisher_yates_draw_among_the_first_i_plus_one_slots] a0 == rangeindex + 2
 //@   ensures [every_slot_holds_an_original_pair] forall k int :: {n.neigh[k]} {n.br[k]} 0 <= k && k < len(n.neigh) ==> (exists m int :: {old(n.neigh[m])} 0 <= m && m < len(n.neigh) && n.neigh[k] == old(n.neigh[m]) && n.br[k] == old(n.br[m]))
 //@   loop 1
+//@     complete [all_iterations_no_early_exit]
 //@     assigns elems(n.neigh), elems(n.br), ghost(rand_count), ghost(rand_last), ghost(rand_range)
 //@     invariant [every_slot_holds_an_original_pair] forall k int :: {n.neigh[k]} {n.br[k]} 0 <= k && k < len(n.neigh) ==> (exists m int :: {old(n.neigh[m])} 0 <= m && m < len(n.neigh) && n.neigh[k] == old(n.neigh[m]) && n.br[k] == old(n.br[m]))
 //@     step [slot_i_is_exchanged_with_the_drawn_slot_nothing_else_moves] j == ghost(rand_last) && n.neigh[rangeindex + 1] == atHead(n.neigh[j]) && n.neigh[j] == atHead(n.neigh[rangeindex + 1]) && n.br[rangeindex + 1] == atHead(n.br[j]) && n.br[j] == atHead(n.br[rangeindex + 1]) && (forall k int :: {n.neigh[k]} {n.br[k]} 0 <= k && k < len(n.neigh) && k != rangeindex + 1 && k != j ==> n.neigh[k] == atHead(n.neigh[k]) && n.br[k] == atHead(n.br[k]))
@@ -1473,6 +1540,7 @@ package tree
 //@   allocates nodeIndex, map[string]*Node, []*Node, []*Edge, iface
 //@   call (*tree.Tree).LeastCommonAncestorRecur [walk_from_the_neighbour_of_a_tip_outside_the_group_over_the_whole_tree] a1 == temproot.neigh[0] && a2 == nil && a3 == tipindex && temproot != nil && !has(tipindex, temproot.name) && len(tipindex) != 0
 //@   loop 1
+//@     complete [all_iterations_no_early_exit]
 //@     invariant [only_names_of_tips_of_the_tree_enter_the_group] tipindex != nil && (forall s string :: {has(tipindex, s)} has(tipindex, s) ==> tipindex[s] != nil && len(tipindex[s].neigh) == 1)
 //@   loop 2
 //@     invariant [no_tip_outside_the_group_met_yet] temproot == nil
@@ -1500,6 +1568,7 @@ package tree
 //@   ensures [every_listed_node_is_live] forall k int :: {(*nodes)[k]} old(len(*nodes)) <= k && k < len(*nodes) ==> (*nodes)[k] != nil && allocated((*nodes)[k])
 //@   call (*tree.Tree).nodesRecur [goes_to_every_neighbour_but_the_one_it_came_from] a1 == nodes && a2 == n && n != prev && a3 == (cur == nil ? t.root : cur)
 //@   loop 1
+//@     complete [all_iterations_no_early_exit]
 //@     assigns cell(nodes), elems("*Node")
 //@     invariant [only_the_list_s_own_storage_is_written] oldarrays_same("*Node", *nodes)
 //@     invariant [list_private] (forall n *Node :: {n.neigh} allocated(n) ==> arr(n.neigh) != arr(*nodes)) && (arr(*nodes) == old(arr(*nodes)) || fresh_arr(*nodes))
@@ -1518,6 +1587,7 @@ package tree
 //@   ensures [path_in_storage_of_its_own] arr(result0) == 0 || fresh_arr(result0)
 //@   call tree.MaxLengthPath [walks_away_from_where_it_came_from] a0 == child && a1 == cur && child != prev
 //@   loop 1
+//@     complete [all_iterations_no_early_exit]
 //@     invariant [best_path_in_storage_of_its_own] (arr(potentialedges) == 0 || fresh_arr(potentialedges)) && oldarrays_same("*Edge")
 //@     invariant [best_so_far] curlength >= 0.0 && (len(potentialedges) == 0 ==> curlength == 0.0) && (len(potentialedges) > 0 ==> curlength > 0.0) && INV12() && cur != nil
 //@     step [a_candidate_replaces_the_best_only_when_strictly_longer] next(curlength) >= curlength && (next(curlength) > curlength ==> len(next(potentialedges)) > 0 && next(potentialedges)[len(next(potentialedges)) - 1] == cur.br[rangeindex + 1])
@@ -1530,8 +1600,10 @@ package tree
 //@   requires t != nil
 //@   call (*tree.Tree).Reroot [the_cut_keeps_the_total_length_and_the_support_of_the_branch] e.length + e2.length == l && e2.length == cut && e.support == b && e2.support == b && a1 == newroot
 //@   loop 1
+//@     complete [all_iterations_no_early_exit]
 //@     invariant [a_longest_path_candidate_has_positive_length] curlength >= 0.0 && (len(potentialedges) > 0 ==> curlength > 0.0)
 //@   loop 2
+//@     complete [all_iterations_no_early_exit]
 //@     invariant [scan_position_within_the_path] 0 <= i && i <= len(potentialedges) && (i == 0 ==> len == 0.0)
 //@     step [first_path_branch_is_left_through_its_upper_end] i == 0 ==> next(node1) == potentialedges[0].right && next(node2) == potentialedges[0].left
 //@     step [going_up_the_cut_is_measured_from_the_lower_end] i > 0 && potentialedges[i].right == node2 ==> next(node1) == potentialedges[i].right && next(node2) == potentialedges[i].left
@@ -1561,6 +1633,7 @@ package tree
 //@   assigns nothing
 //@   ensures [only_entries_whose_count_is_in_the_window] forall k int :: {result[k]} 0 <= k && k < len(result) ==> result[k] != nil && result[k].val != nil && inwindow(result[k].val.Count, minCount, maxCount)
 //@   loop 1
+//@     complete [all_iterations_no_early_exit]
 //@     invariant [entries] forall k int :: {keyvalues[k]} 0 <= k && k < len(keyvalues) ==> keyvalues[k] != nil
 //@     invariant [separate_storage] arr(bitsets) != arr(keyvalues)
 //@     invariant [only_entries_whose_count_is_in_the_window] forall k int :: {bitsets[k]} 0 <= k && k < len(bitsets) ==> bitsets[k] != nil && bitsets[k].val != nil && inwindow(bitsets[k].val.Count, minCount, maxCount)
@@ -1619,6 +1692,7 @@ package tree
 //@   call (*tree.Edge).SetLength@L0 [the_new_branch_gets_the_given_length] a0 == e && a1 == length
 //@   call (*tree.Edge).SetSupport@L0 [the_new_branch_gets_the_given_support] a0 == e && a1 == support
 //@   loop 1
+//@     complete [all_iterations_no_early_exit]
 //@     invariant [incoming_moved_branches_counted] nbin >= 0 && nbout >= 0 && n2 != nil
 //@     step [every_moved_branch_gets_its_three_values_back_exactly_once] ghost(ncalls_SetLength) == atHead(ghost(ncalls_SetLength)) + 1 && ghost(ncalls_SetSupport) == atHead(ghost(ncalls_SetSupport)) + 1 && ghost(ncalls_SetPValue) == atHead(ghost(ncalls_SetPValue)) + 1 && ghost(ncalls_ConnectNodes) == atHead(ghost(ncalls_ConnectNodes)) + 1
 //@     step [one_more_in_the_direction_of_the_moved_branch] next(nbin) + next(nbout) == nbin + nbout + 1 && (next(nbin) == nbin + 1) == (e.left != n)
@@ -1657,12 +1731,14 @@ package tree
 //@   return [a_tip_counts_for_one_an_inner_node_for_its_subtrees] result == (len(cur.neigh) == 1 ? 1 : total)
 //@   ensures [still_as_many_neighbours_as_branches_everywhere] INV12()
 //@   loop 1
+//@     complete [all_iterations_no_early_exit]
 //@     assigns elems(neighbors), elems("*Node"), elems("*Edge")
 //@     invariant [shape] INV12() && len(neighbors) == len(cur.neigh) && fresh_arr(neighbors)
 //@     invariant [the_table_holds_live_pairs_so_far] forall k int :: {neighbors[k]} 0 <= k && k <= rangeindex ==> neighbors[k].neigh != nil && neighbors[k].br != nil
 //@     step [slot_i_of_the_table_takes_the_i_th_neighbour_and_the_i_th_branch] neighbors[rangeindex + 1].neigh == atHead(cur.neigh[rangeindex + 1]) && neighbors[rangeindex + 1].br == atHead(cur.br[rangeindex + 1])
 //@     step [the_count_of_a_subtree_is_what_its_sorting_returned_and_the_origin_counts_for_nothing] next(total) == total + neighbors[rangeindex + 1].ntips && (atHead(cur.neigh[rangeindex + 1]) == prev ==> neighbors[rangeindex + 1].ntips == 0)
 //@   loop 2
+//@     complete [all_iterations_no_early_exit]
 //@     assigns elems("*Node"), elems("*Edge")
 //@     invariant [shape] INV12() && len(neighbors) == len(cur.neigh) && fresh_arr(neighbors)
 //@     invariant [the_table_holds_live_pairs] forall k int :: {neighbors[k]} 0 <= k && k < len(neighbors) ==> neighbors[k].neigh != nil && neighbors[k].br != nil
@@ -1710,6 +1786,7 @@ package tree
 //@   call (*bytes.Buffer).WriteString@L0 [the_header_comes_first] ghost(ncalls_WriteString) - old(ghost(ncalls_WriteString)) <= 1 ==> a1 == (ghost(ncalls_WriteString) == old(ghost(ncalls_WriteString)) ? "#NEXUS\n" : "BEGIN TAXA;\n")
 //@   return [one_label_per_tip_between_the_fixed_parts] ghost(ncalls_WriteString) == old(ghost(ncalls_WriteString)) + 13 + len(tips)
 //@   loop 1
+//@     complete [all_iterations_no_early_exit]
 //@     invariant [labels_so_far] ghost(ncalls_WriteString) == old(ghost(ncalls_WriteString)) + 6 + rangeindex + 1 && ghost(ncalls_Itoa) == old(ghost(ncalls_Itoa)) + 1 && ghost(ncalls_Newick) == old(ghost(ncalls_Newick)) + 1
 
 // RotateInternalNodes (properties C05, C20): every node of the tree, without exception, has its neighbours rotated once
@@ -1721,6 +1798,7 @@ package tree
 //@   call (*tree.Tree).Nodes [the_nodes_of_this_tree] a0 == t
 //@   call (*tree.Node).RotateNeighbors [the_node_of_this_iteration] a0 == n
 //@   loop 1
+//@     complete [all_iterations_no_early_exit]
 //@     step [every_node_is_rotated_exactly_once] ghost(ncalls_RotateNeighbors) == atHead(ghost(ncalls_RotateNeighbors)) + 1
 
 // IncrementSupport (property C10): an absent support counts as zero, then the given amount is added - whatever it is
